@@ -76,7 +76,15 @@ def make_value(rng):
   if r < 0.12:
     return special_value(rng)
   if r < 0.2:
-    kw = {'r': 1} if rng.random() < 0.5 else {}
+    q = rng.random()
+    if q < 0.35:
+      # allow_partial=True on a value that happens to be complete: the flag is
+      # a property of the object, not of its current content.
+      if rng.random() < 0.5:
+        return 'Typed.partial()', M.Typed.partial()
+      kw = {'r': 1, 'rs': 'a', 'rd': {'a': 1}}
+      return f'Required.partial({kw})[complete]', M.Required.partial(**kw)
+    kw = {'r': 1} if q < 0.7 else {}
     return f'Required.partial({kw})', M.Required.partial(**kw)
   descs, forest = H.make_forest(rng, n_roots=1, typed=rng.random() < 0.6, depth=3,
                                 classes=('Any2', 'Writable', 'Notifier', 'Bound', 'NoSymCmp'))
